@@ -1004,6 +1004,8 @@ class Parsent(object):
         self.closed = False
         self.errored = False
         self.error = None
+        self.parms = None  # chunk extensions and trailers of previous message
+        self.trails = None
 
         while not self.started:
             if self.msg:
